@@ -40,6 +40,24 @@ CLAIMED = {
  "C20": ("fault_enumeration", "4.3, 5 C20", "crash-prefix enumeration over the recorded file operations of every save",
          "For every wallet-service or key-value-storage operation that touches the disk, every prefix of the primitive file operations it issued (before each step, after open(O_TRUNC), writes cut at 1 / half / len-1 / a drawn offset, after each step, rename as one step) is materialised and a fresh service/manager must start on it and load, for every file, the previous or the new content.",
          "Ordered-write crash model as in the statement (no reordering across steps, rename atomic); effects of un-seamed calls (IsWritable) are captured by the directory snapshot at the first seamed step. The peers file uses the same SaveBinary path but is exercised only via kvstorage/wallet here."),
+ "C10": ("exploration", "4.1, 5 C10", "byzantine relay tampering signed objects in flight between real nodes (deterministic simulation)",
+         "In a simulated network of 2-3 real nodes a relay rewrites GIVT/GIVB frames in flight the way a key-less third party can (bit flips in outputs, signatures, inner hash and header fields, negated s, recovery-id variants, r high bit, appended bytes, length field, reordered inputs or transactions); afterwards every transaction in any pool and every block in any chain must be byte-identical to one an honest signer emitted, and every accepted signature must be low-s with recovery id < 4.",
+         "Partial: the whole-domain claim over all keys and messages is input enumeration, outside this technique; here mutations ride on the signatures the workload happens to produce. Malleation checks on objects submitted directly (not relayed) are part of C04/C06."),
+ "C22": ("exploration", "4.1, 5 C22", "seeded message bursts with arbitrary stream chunking and malformed tails against the real receive path",
+         "A correctly introduced scripted peer writes bursts of 1-32 well-formed messages as one byte stream cut at tape-chosen offsets (including inside length prefixes, ids and later frames, and byte-by-byte); the node's replies must correspond one-to-one and in order to the messages sent; malformed tails (length below minimum / above the configured maximum, unknown id, undecodable body, trailing bytes, EOF mid-frame, noise) must disconnect with the matching reason and nothing after them may be processed; panics are violations.",
+         "The receive path is stepped (hook H4: decodeData, convertToMessage, receiveMessage, handlers are the real code; the three per-connection goroutines and the 32-slot receive queue between them are not). Message delivery is observed through replies, so only reply-producing message types are distinguishable."),
+ "C23": ("exploration", "4.1, 5 C23", "wire monitor on every frame and send error of real nodes in a simulated network with boundary-seeking workload",
+         "With per-run knobs (maximum outgoing length from its legal minimum, response cap, request count) and a workload that packs the publisher's pool to the block size limit, every frame any node puts on the wire must fit the limit, no message a node built may be refused by its own send step as too long, and every GIVB answering a GETB must contain exactly the longest prefix of the requested blocks that fits (sizes from the harness' own encoder).",
+         "Partial: daemon.New refuses configurations below one maximum-size block, so only GIVB/GIVT truncation is reachable in a running system; GIVP/ANNT/GETT truncators and sub-minimum lengths are pure-function space. GIVT prefix content is not compared (only its length)."),
+ "C24": ("exploration", "4.1, 5 C24", "seeded connection-event histories against one real node, bookkeeping compared with the pool's live set after every event",
+         "Scripted peers on 3 IPs x 3 ports with mirrors in {0, own, A, B} and listen ports in {0, p, q, own}: incoming connects, outgoing attempts and their success/failure, introductions, other messages, disconnects, cull/stale/ping ticks; after every event the connection list must equal the connections the gnet pool really holds plus unresolved attempts, per-IP counts / IP+mirror registry / id map / listen-address map must be exactly what that list implies, state transitions must be legal, and after removing everything all five maps must be empty.",
+         "An incoming connection from exactly the address of a pending outgoing attempt (merged by the node) is kept out of the workload. Sampling."),
+ "C25": ("exploration", "4.1, 5 C25", "scripted chaos peers with generated introductions and message orders against one real node",
+         "Introductions with generated fields and extra bytes (wrong key, versions around the minimum, own mirror, parameters in and out of range, 8 user agents, truncated / extended / length-lying extras) and all other message types in any order on fresh and introduced connections: a connection may become introduced only if an independent predicate on the bytes sent holds, any non-{INTR, DISC, GIVP} message before introduction must disconnect and must not be processed (no reply of the corresponding kind), and no input may panic the node.",
+         "The statement gives necessary conditions only; refusing a conforming introduction is counted, not flagged."),
+ "C33": ("exploration", "4.1, 5 C33", "real follower fed by lossy, duplicating, reordering and forging scripted relays; safety, exactness and bounded catch-up",
+         "The follower (real visor+bolt+daemon handlers) is connected only to scripted relays holding the real publisher's blocks: GIVB in order / overlapping / gapped / shuffled / repeated / with forged or re-signed blocks, ignored or short answers, arbitrary announcements, disconnects, chunked and duplicated frames. Every event: the follower's chain is a prefix of the publisher's, block for block and signature for signature; after each GIVB its head equals the order-aware model (skip known, stop at first failure); after each accepted batch and each higher announcement it requests blocks above its head; finally, fault-free with one honest full-chain peer, it reaches the publisher's head within 10 request periods.",
+         "Relays are scripted actors, not real nodes (real-node relaying is exercised in C10/C23 runs). Sampling."),
 }
 
 NA = {
@@ -95,8 +113,8 @@ ADD_ONLY = False  # H7 rewrites three call sites in util/file.SaveBinary (ioutil
 ENGINES = [
  dict(name="e3", path="/verif/harness/e3", serves_properties=["C17", "C18", "C19", "C20"],
       kind_free_text="wallet service, wallet types and key-value storage on a simulated disk (hook H7): operation histories, disk-error injection, crash-prefix enumeration, bit-rot"),
- dict(name="e1", path="/verif/harness/e1", serves_properties=["C01", "C02", "C03", "C04", "C05", "C06", "C07", "C08"],
-      kind_free_text="single-goroutine discrete-event simulation of 1-3 real visor+bolt nodes on the synctest fake clock, shadowed by the reference ledger model"),
+ dict(name="e1", path="/verif/harness/e1", serves_properties=["C01", "C02", "C03", "C04", "C05", "C06", "C07", "C08", "C10", "C22", "C23", "C24", "C25", "C33"],
+      kind_free_text="single-goroutine discrete-event simulation of 1-3 real nodes (visor+bolt, and for the network properties the daemon handlers and gnet pool stepped through hooks H4/H5 over simulated connections) on the synctest fake clock, shadowed by the reference ledger model"),
 ]
 
 if __name__ == "__main__":
